@@ -218,6 +218,63 @@ def pick_extent(rnd, dim, n, p, a):
 
 
 MODES = ['incl', 'excl', 'default']
+
+# every public entry point of Tag / MultiTag retrieval (include/nix/util/dataAccess.hpp, Tag.hpp, MultiTag.hpp) as a
+# route of one of the request commands; member routes have no RangeMatch parameter (mode `default` only)
+ROUTES = {
+    'tagged':    {'idx': 'util::taggedData(Tag, ndsize_t ref, [match])', 'arr': 'util::taggedData(Tag, DataArray, [match])',
+                  'r_idx': 'util::retrieveData(Tag, ndsize_t ref, [match]) (deprecated)', 'r_arr': 'util::retrieveData(Tag, DataArray, [match]) (deprecated)',
+                  'm_idx': 'Tag::taggedData(size_t)', 'm_name': 'Tag::taggedData(name)', 'm_id': 'Tag::taggedData(id)',
+                  'mr_idx': 'Tag::retrieveData(size_t) (deprecated)', 'mr_name': 'Tag::retrieveData(name) (deprecated)'},
+    'feature':   {'idx': 'util::featureData(Tag, ndsize_t feature, [match])', 'feat': 'util::featureData(Tag, Feature, [match])',
+                  'r_idx': 'util::retrieveFeatureData(Tag, ndsize_t, [match]) (deprecated)', 'r_feat': 'util::retrieveFeatureData(Tag, Feature, [match]) (deprecated)',
+                  'm_idx': 'Tag::featureData(size_t)', 'm_fid': 'Tag::featureData(feature id)', 'm_dname': 'Tag::featureData(data array name)',
+                  'mr_idx': 'Tag::retrieveFeatureData(size_t) (deprecated)', 'mr_fid': 'Tag::retrieveFeatureData(feature id)'},
+    'mtagged1':  {'idx': 'util::taggedData(MultiTag, ndsize_t pos, ndsize_t ref, [match])', 'arr': 'util::taggedData(MultiTag, ndsize_t pos, DataArray, [match])',
+                  'r_idx': 'util::retrieveData(MultiTag, ndsize_t pos, ndsize_t ref, [match]) (deprecated)', 'r_arr': 'util::retrieveData(MultiTag, ndsize_t pos, DataArray, [match]) (deprecated)',
+                  'm_idx': 'MultiTag::taggedData(size_t pos, size_t ref)', 'm_name': 'MultiTag::taggedData(size_t pos, name)', 'm_id': 'MultiTag::taggedData(size_t pos, id)',
+                  'mr_idx': 'MultiTag::retrieveData(size_t pos, size_t ref) (deprecated)', 'mr_name': 'MultiTag::retrieveData(size_t pos, name)'},
+    'mtagged':   {'idx': 'util::taggedData(MultiTag, vector<ndsize_t>, ndsize_t ref, [match])', 'arr': 'util::taggedData(MultiTag, vector<ndsize_t>, DataArray, [match])',
+                  'r_idx': 'util::retrieveData(MultiTag, vector<ndsize_t>, ndsize_t ref, [match]) (deprecated)', 'r_arr': 'util::retrieveData(MultiTag, vector<ndsize_t>, DataArray, [match]) (deprecated)',
+                  'm_idx': 'MultiTag::taggedData(vector<ndsize_t>, ndsize_t ref)', 'm_name': 'MultiTag::taggedData(vector<ndsize_t>, name)', 'm_id': 'MultiTag::taggedData(vector<ndsize_t>, id)',
+                  'mr_idx': 'MultiTag::retrieveData(vector<ndsize_t>, ndsize_t ref) (deprecated)', 'mr_name': 'MultiTag::retrieveData(vector<ndsize_t>, name) (deprecated)'},
+    'mfeature1': {'idx': 'util::featureData(MultiTag, ndsize_t pos, ndsize_t feature, [match])', 'feat': 'util::featureData(MultiTag, ndsize_t pos, Feature, [match])',
+                  'r_idx': 'util::retrieveFeatureData(MultiTag, ndsize_t pos, ndsize_t feature, [match]) (deprecated)', 'r_feat': 'util::retrieveFeatureData(MultiTag, ndsize_t pos, Feature, [match]) (deprecated)',
+                  'm_idx': 'MultiTag::featureData(size_t pos, size_t feature)', 'm_fid': 'MultiTag::featureData(size_t pos, feature id)', 'm_dname': 'MultiTag::featureData(size_t pos, data array name)',
+                  'mr_idx': 'MultiTag::retrieveFeatureData(size_t pos, size_t feature) (deprecated)', 'mr_fid': 'MultiTag::retrieveFeatureData(size_t pos, feature id) (deprecated)'},
+    'mfeature':  {'idx': 'util::featureData(MultiTag, vector<ndsize_t>, ndsize_t feature, [match])', 'feat': 'util::featureData(MultiTag, vector<ndsize_t>, Feature, [match])',
+                  'r_idx': 'util::retrieveFeatureData(MultiTag, vector<ndsize_t>, ndsize_t feature, [match]) (deprecated)', 'r_feat': 'util::retrieveFeatureData(MultiTag, vector<ndsize_t>, Feature, [match]) (deprecated)'},
+}
+# entry points without a route (called by the plain commands)
+PLAIN_ROUTES = {'offcnt': 'util::getOffsetAndCount(Tag, DataArray, NDSize&, NDSize&, [match])',
+                'taggeda': 'util::taggedData(Tag, DataArray, [match]) on an array that need not be referenced',
+                'moffcnt': 'util::getOffsetAndCount(MultiTag, DataArray, vector<ndsize_t>, vector<NDSize>&, vector<NDSize>&, match) (declared as getOffestAndCount)',
+                'moffcnt1': 'util::getOffsetAndCount(MultiTag, DataArray, ndsize_t, NDSize&, NDSize&, [match])'}
+
+
+def is_member_route(route):
+    return route.startswith('m_') or route.startswith('mr_')
+
+
+def routed(rnd, cmd, rest, mode, route=None, counts=None):
+    """query line `cmd@route rest...` with the mode adjusted to the route (member routes: default only)"""
+    if route is None:
+        route = rnd.choice(sorted(ROUTES[cmd]))
+    if is_member_route(route):
+        mode = 'default'
+    if counts is not None:
+        counts[cmd + '@' + route] = counts.get(cmd + '@' + route, 0) + 1
+    first, others = rest[0], rest[1:]
+    return ' '.join(['%s@%s' % (cmd, route), str(first), mode] + [str(x) for x in others])
+
+
+def all_routes(rnd, cmd, rest, counts=None):
+    """the request through every entry point, in the modes each admits"""
+    out = []
+    for route in sorted(ROUTES[cmd]):
+        for mode in (['default'] if is_member_route(route) else MODES):
+            out.append(routed(rnd, cmd, rest, mode, route, counts))
+    return out
 LINKS = ['tagged', 'untagged', 'indexed']
 
 
@@ -293,6 +350,7 @@ def _drop_last(shape, ids, dims):
 
 
 def pinned_explains(cmd, impl, spec, nspec_of):
+    cmd = cmd.split('@')[0]
     """does 'an unspecified dimension loses its last element' (and nothing else) explain impl != spec on this line?
     nspec_of(i) -> number of dimensions the request specifies (for list item i)"""
     if not (impl.startswith('OK ') and spec.startswith('OK ')):
@@ -353,7 +411,7 @@ def case_info(case):
 
 
 def target_array(info, t):
-    cmd = t[0]
+    cmd = t[0].split('@')[0]
     try:
         if cmd in ('offcnt', 'taggeda', 'moffcnt', 'moffcnt1'):
             return t[1]
@@ -383,7 +441,7 @@ def signature(kind, case, impl, spec, compare):
         if rank is None:
             pinned = False
             break
-        if t[0] in ('offcnt', 'tagged', 'taggeda', 'feature'):
+        if t[0].split('@')[0] in ('offcnt', 'tagged', 'taggeda', 'feature'):
             ns = min(info['np'] or 0, rank)
         else:
             ps = info['pshape'] or []
@@ -438,7 +496,10 @@ def _model_lines(kind, case, flags):
         name = f.name
     try:
         env = dict(os.environ)
-        env['RETR_FLAGS'] = flags
+        if flags is None:
+            env.pop('RETR_FLAGS', None)
+        else:
+            env['RETR_FLAGS'] = flags
         r = subprocess.run([exe, name], capture_output=True, text=True, env=env, timeout=30)
     except Exception:
         return None
@@ -467,7 +528,7 @@ def explain(kind, case, impl, spec, compare):
             rank = info['rank'].get(aid)
             if rank is None:
                 return False
-            if t[0] in ('offcnt', 'tagged', 'taggeda', 'feature'):
+            if t[0].split('@')[0] in ('offcnt', 'tagged', 'taggeda', 'feature'):
                 ns = min(info['np'] or 0, rank)
             else:
                 ps = info['pshape'] or []
@@ -479,9 +540,12 @@ def explain(kind, case, impl, spec, compare):
     # the failure must be the MODELLED behaviour of the pinned code on every failing line; a failure the model of
     # today's code does not reproduce is not one of the known defects
     today = _model_lines(kind, case, '')
-    if today is None:
+    current = _model_lines(kind, case, None)
+    if today is None or current is None:
         return 'other'
-    if not all(compare(impl[k], today[k]) for k in failing):
+    # ... and of the behaviour the check currently replays (after the repairs have landed the model is the repaired
+    # one: a failure that only the model of the OLD code reproduces is then a new defect, not a known one)
+    if not all(compare(impl[k], today[k]) and compare(impl[k], current[k]) for k in failing):
         return 'unexplained'
     for name, flags in REPAIRS:
         m = _model_lines(kind, case, flags)
